@@ -205,7 +205,73 @@ async fn wsup(i: usize, ctx: ohkami::ws::WebSocketContext<'_>) -> ohkami::ws::We
     })
 }
 
+static ACC: AtomicUsize = AtomicUsize::new(0);
+fn count_accepts(kind: &'static str, _a: usize, _b: usize) { if kind == "accepted" { ACC.fetch_add(1, Ordering::SeqCst); } }
+
+/// A burst: on a runtime with ONE thread, a connection is put into the accept queue and the interrupt is delivered (handler finished) while the
+/// accept loop is not being polled; its next poll then accepts the connection and sees the interrupt in one go.  Whatever the loop does with a
+/// connection it has accepted, that connection is a session in flight: `howl` returns after it has been served, not before its task was ever polled.
+fn burst(scn: &Value) -> Value {
+    use ohkami::prelude::*;
+    use std::io::{Read, Write};
+    let _ = scn;
+    v::install_sched(sched_free);
+    v::install_emit(count_accepts);
+    for _ in 0..2 { RELEASE.lock().unwrap().push(Arc::new(tokio::sync::Notify::new())) }
+    let rt = tokio::runtime::Builder::new_current_thread().enable_all().build().unwrap();
+    let out = rt.block_on(async move {
+        let port = { let l = std::net::TcpListener::bind("127.0.0.1:0").unwrap(); l.local_addr().unwrap().port() };
+        let o = Ohkami::new(("/s/:i".GET(slow),));
+        let script = tokio::spawn(async move {
+            let mut up = false;
+            for _ in 0..4000 { if let Ok(c) = tokio::net::TcpStream::connect(("127.0.0.1", port)).await { drop(c); up = true; break } tokio::time::sleep(Duration::from_millis(5)).await }
+            if !up { return Err("howl did not listen") }
+            tokio::time::sleep(Duration::from_millis(50)).await;        // the probe's own session has ended
+            ACC.store(0, Ordering::SeqCst);
+            RELEASE.lock().unwrap()[0].notify_one();                     // the handler of session 0 will not wait
+            // ---- from here to the next await nothing else runs on the runtime's only thread
+            ev("arrive", 0);
+            let Ok(mut c) = std::net::TcpStream::connect(("127.0.0.1", port)) else { return Err("connect") };
+            let _ = c.write_all(b"GET /s/0 HTTP/1.1\r\nConnection: close\r\n\r\n");
+            ev("signal", 0);
+            let before = HEND.load(Ordering::SeqCst);
+            unsafe { libc::raise(libc::SIGINT); }
+            let t0 = std::time::Instant::now();
+            while HEND.load(Ordering::SeqCst) == before && t0.elapsed() < Duration::from_secs(3) { std::thread::sleep(Duration::from_millis(1)) }
+            std::thread::sleep(Duration::from_millis(5));
+            // ---- now the accept loop is polled: a connection in its queue, the flag set, the wake-up delivered
+            let mut returned = false;
+            for _ in 0..5000 { if EVENTS.lock().unwrap().iter().any(|(k, _)| k == "returned") { returned = true; break } tokio::time::sleep(Duration::from_millis(2)).await }
+            let _ = c.set_read_timeout(Some(Duration::from_millis(1500)));
+            let mut buf = vec![]; let _ = c.read_to_end(&mut buf);
+            ev("client-bytes", buf.len() as i64);
+            Ok((true, 0i64, returned))
+        });
+        let howl = async { o.howl(("127.0.0.1", port)).await;
+            let ended = EVENTS.lock().unwrap().iter().filter(|(k, _)| k == "ended").count();
+            ev("acc-open", ACC.load(Ordering::SeqCst) as i64 - ended as i64); ev("returned", 0); };
+        tokio::pin!(howl);
+        tokio::pin!(script);
+        let mut sres = None; let mut hdone = false;
+        loop {
+            tokio::select! {
+                _ = &mut howl, if !hdone => { hdone = true; if sres.is_some() { break } }
+                r = &mut script, if sres.is_none() => { sres = Some(r.unwrap()); break }
+            }
+        }
+        match sres.unwrap() {
+            Err(e) => json!({"kind": "tool-error", "where": e}),
+            Ok((signalled, unserved, returned)) => {
+                let evs: Vec<Value> = EVENTS.lock().unwrap().iter().map(|(k, i)| json!([k, i])).collect();
+                json!({"kind": "e2e", "returned": returned, "signalled": signalled, "unserved": unserved, "events": evs})
+            }
+        }
+    });
+    out
+}
+
 fn e2e(scn: &Value) -> Value {
+    if scn["burst"].as_bool().unwrap_or(false) { return burst(scn) }
     use ohkami::prelude::*;
     use tokio::io::{AsyncReadExt, AsyncWriteExt};
     v::install_sched(sched_free);
